@@ -209,10 +209,16 @@ def scn_joint(sample_shape, comps):
         for k, extra in enumerate(comps):
             # a component spec starting with "u" is UNBATCHED: it has no sample dimensions of its own
             unb = len(extra) > 0 and extra[0] == "u"
-            extra = tuple(extra[1:]) if unb else tuple(extra)
-            own = () if unb else sample_shape
+            # ("p", n, ...): the component carries only the first n sample dimensions (a model batched over [S] next to one over [S,K])
+            pre = len(extra) > 1 and extra[0] == "p"
+            if pre:
+                own = sample_shape[:extra[1]]
+                extra = tuple(extra[2:])
+            else:
+                extra = tuple(extra[1:]) if unb else tuple(extra)
+                own = () if unb else sample_shape
             t = mk.real("lp%d" % k, own + extra)
-            tensors.append((t, extra, unb))
+            tensors.append((t, extra, unb, len(own)))
 
             class Comp(CallableModel):
                 def __init__(self, id_, t):
@@ -244,9 +250,9 @@ def scn_joint(sample_shape, comps):
             spec = []
             for s in itertools.product(*[range(b) for b in sample_shape]):
                 tot = 0
-                for t, extra, unb in tensors:
+                for t, extra, unb, n_own in tensors:
                     for ix in itertools.product(*[range(e) for e in extra]):
-                        tot = tot + el(t, (() if unb else s) + ix)
+                        tot = tot + el(t, (() if unb else s[:n_own]) + ix)
                 spec.append(tot)
             cl.append(("eq", "joint[s]_is_sum_of_components_at_s", val, spec))
         return cl
@@ -498,6 +504,80 @@ def replay_underflow_mixed_batch(args):
     return True, "held"
 
 
+def ob_scale_separated_batch():
+    """samples of very different magnitude in one batch (root heights 3 ... 300 with the smooth-max node-height transform at k = 100, population
+    sizes 1e-3 ... 1e3, Weibull shapes 0.05 ... 50): every sample equals its single-sample evaluation in floating point, i.e. nothing
+    (a shift, a normaliser, a maximum) is taken over the sample dimension"""
+    def body():
+        import torchtree.evolution.coalescent as co
+        from specs import treemodels
+        from torchtree.core.parameter import Parameter
+        from torchtree.evolution.site_model import WeibullSiteModel
+        from torchtree.evolution.tree_height_transform import DifferenceNodeHeightTransform
+        n = 0
+        names, dates = ["A", "B", "C", "D", "E"], [0.0, 1.0, 0.5, 2.0, 0.0]
+        tree = (((0, 1), 2), (3, 4))
+        base = torch.tensor([0.6, 0.9, 0.4, 1.1], dtype=torch.float64)
+
+        def close(a, b):
+            return a.shape == b.shape and bool(torch.isfinite(a).all()) and torch.allclose(a, b, rtol=1e-9, atol=1e-12)
+        for scales in ([1.0, 3.0, 10.0], [100.0, 1.0], [1.0, 1.0, 40.0]):
+            for k in (10.0, 100.0):
+                def model(shifts):
+                    tm, _ = treemodels.build_reparam(tree, names, dates, shifts, kind="shifts")
+                    tm.transform = DifferenceNodeHeightTransform(tm, k)
+                    return tm
+                rows = torch.stack([base * c for c in scales])
+                tmb = model(rows.clone())
+                hb = tmb.node_heights
+                cb = co.ConstantCoalescent(torch.tensor([[2.0]] * len(scales), dtype=torch.float64)).log_prob(hb)
+                for s_, c in enumerate(scales):
+                    hs = model((base * c).clone()).node_heights
+                    cs = co.ConstantCoalescent(torch.tensor([2.0], dtype=torch.float64)).log_prob(hs)
+                    n += 1
+                    if not close(hb[s_], hs) or not close(cb[s_].reshape(-1), cs.reshape(-1)):
+                        raise Refuted("DifferenceNodeHeightTransform(k=%s), batch of height increments with scales %s: sample %d has node heights %s in the batch and %s alone "
+                                      "(coalescent density %s vs %s)" % (k, scales, s_, hb[s_].tolist(), hs.tolist(), cb[s_].tolist(), cs.tolist()),
+                                      witness={"scales": scales, "k": k, "sample": s_}, confirmed=True,
+                                      replay={"kind": "custom", "contract": "C10", "func": "replay_scale_separated_batch", "args": {}})
+        # population sizes and heights of different magnitude, every coalescent with a closed form
+        h0 = torch.tensor([0.0, 0.0, 0.5, 1.0, 1.5, 2.5, 4.0], dtype=torch.float64)
+        for mags in ([1e-3, 1.0, 1e3], [1e4, 1e-2]):
+            H = torch.stack([h0 * m_ for m_ in mags])
+            TH = torch.stack([torch.tensor([3.0, 10.0, 4.0], dtype=torch.float64) * m_ for m_ in mags])
+            for name, mk_ in (("constant", lambda th: co.ConstantCoalescent(th[..., :1])), ("skyride", lambda th: co.PiecewiseConstantCoalescent(th)),
+                              ("exponential", lambda th: co.ExponentialCoalescent(th[..., :1], 0.3 / th[..., 1:2]))):
+                got = mk_(TH).log_prob(H)
+                for s_ in range(len(mags)):
+                    want = mk_(TH[s_]).log_prob(H[s_])
+                    n += 1
+                    if not close(got[s_].reshape(-1), want.reshape(-1)):
+                        raise Refuted("%s coalescent, batch of magnitudes %s: sample %d is %s in the batch and %s alone" % (name, mags, s_, got[s_].tolist(), want.tolist()),
+                                      witness={"model": name, "mags": mags, "sample": s_}, confirmed=True,
+                                      replay={"kind": "custom", "contract": "C10", "func": "replay_scale_separated_batch", "args": {}})
+        for shapes in ([0.05, 1.0, 50.0], [20.0, 0.1]):
+            sm = WeibullSiteModel("w", Parameter("s", torch.tensor([[v] for v in shapes], dtype=torch.float64)), 4)
+            rb = sm.rates()
+            for s_, v in enumerate(shapes):
+                rs = WeibullSiteModel("w1", Parameter("s1", torch.tensor([v], dtype=torch.float64)), 4).rates()
+                n += 1
+                if not close(rb[s_].reshape(-1), rs.reshape(-1)):
+                    raise Refuted("Weibull site model, batch of shapes %s: sample %d has rates %s in the batch and %s alone" % (shapes, s_, rb[s_].tolist(), rs.tolist()),
+                                  witness={"shapes": shapes, "sample": s_}, confirmed=True,
+                                  replay={"kind": "custom", "contract": "C10", "func": "replay_scale_separated_batch", "args": {}})
+        return {"backend": "concrete", "cases": n, "bounded": "the listed magnitudes, float64",
+                "statement": "%d samples of scale-separated batches equal their single-sample evaluation (relative 1e-9)" % n}
+    return Ob("C10.scale_separated_batch", "B", body, clause="result[s] is the result of the s-th slice also when the samples differ by orders of magnitude", funcs=FUNCS, timeout=600)
+
+
+def replay_scale_separated_batch(args):
+    try:
+        ob_scale_separated_batch().fn()
+    except Refuted as e:
+        return False, e.detail
+    return True, "held"
+
+
 def ob_bdsk_rho_zero_in_batch():
     """birth-death skyline, all tips at the present, a batch in which SOME samples have no sampling at the present (rho = 0: their tips are
     psi-samples) and others have rho > 0: every sample equals its single-sample evaluation"""
@@ -627,9 +707,16 @@ def obligations(tier, seed):
         for cs in comp_sets:
             obs.append(scenario_ob("C10", "C10.joint[sample=%s,components=%s]" % (b, cs), "V", "scn_joint", (b, cs),
                                    clause="joint adds components of the same sample only", funcs=FUNCS, seed=seed))
+    # components of different sample rank, square sample shapes included (right-aligned broadcasting would pair sample k of one
+    # component with sample (s,k) of the other): the joint either raises or adds A[s] to B[s,k]
+    for b in [(2, 2), (3, 3), (2, 3), (3, 2)]:
+        for cs in ([("p", 1), ()], [(), ("p", 1)], [("p", 1, 2), ()], [("p", 1), (2,)], [("p", 1), (), ("u",)]):
+            obs.append(scenario_ob("C10", "C10.joint.mixed_rank[sample=%s,components=%s]" % (b, cs), "V", "scn_joint", (b, cs),
+                                   clause="joint adds components of the same sample only (components of different sample rank)", funcs=FUNCS, seed=seed))
     obs.append(ob_sample_shape_helpers())
     obs.append(ob_real_model_sample_shapes())
     obs.append(ob_bdsk_rho_zero_in_batch())
+    obs.append(ob_scale_separated_batch())
     for ts_ in (False, True):
         obs.append(ob_underflow_mixed_batch(ts_))
     obs.append(ob_hierarchical_distribution())
